@@ -87,6 +87,11 @@ CLAIMED = {
    "Layout main.journal (workspace root) -> cur.journal (the open document) -> inc.journal, and main.journal -> sib.journal. Account and, independently, commodity declarations live in the current, the included, the sibling workspace file or nowhere (16 placements) x the 8 combinations of the three diagnostics settings x workspace root present/absent. Transaction 1 uses accounts of 15 classes (declared, child, grandchild, sibling, sharing a prefix without colon boundary, standard categories in mixed and upper case, look-alike category, undeclared) alone, in all pairs (thorough: all triples) and all together; transaction 2 uses declared and undeclared commodities in amount, cost and assertion position, once and twice. The published diagnostics must contain exactly one UNDECLARED_ACCOUNT on the line of every uncovered posting iff an account declaration is visible (own file, include tree, workspace files with a root) and the setting is on, exactly one UNDECLARED_COMMODITY per (transaction, undeclared symbol) iff a commodity declaration is visible and its setting is on, and each setting affects only its own code.",
    "Declarations via D / P are not declarations (hledger agrees). Single-segment account names are outside G.",
    "DESIGN.md §4.3, §5 C18"),
+ "C20": ("exploration",
+   "bounded-exhaustive enumeration of multi-file workspaces rendered from the model; hover markdown parsed back and compared with exact rational aggregates computed on the model",
+   "Workspaces of 1..3 files (thorough 4) with every include tree, three accounts with postings in every file, amounts in two commodities drawn by rotation from 10 spellings (12 decimals, comma/point/space/Indian digit groups, decimal comma, exponent, negative), amount-less postings, unit and total costs, a payee with and without note, tags and tag values repeated across files; workspace root on/off; every file closed, all open, or one file open with an unsaved edit adding a transaction. Hover is requested at the first, middle and last character of every account, payee, tag name, tag value and amount of every file. The figures parsed back from the markdown (per-commodity balance lines, Postings, Transactions, Usage, Amount, Unit/Total cost) must equal, as exact rationals and integers, the aggregates of the model over the requesting file and its include tree (no workspace) or all workspace files (with one), each file once, editor text for open files.",
+   "Inferred amounts are not part of the statement. Whether a hover must exist at a position is not checked here (C08 checks its range).",
+   "DESIGN.md §4.3, §5 C20"),
 }
 
 NOT_YET = "check not built yet in this session (work in progress; see DESIGN.md §5 for the plan)"
